@@ -350,6 +350,9 @@ func runRegexModel(o *Options, res *Result, rng *RNG, sources [][]byte, perExpr 
 // Model/Regex.v, a repeated sub-expression may match the empty string, ...).
 func parserModelBroken(res *Result) bool {
 	if genNowErr == nil {
+		if genNowDir != "" {
+			res.Notes = appendCap(res.Notes, fmt.Sprintf("parser model of this run: the %d expressions Model/Parser.v reads were regenerated from /repo's regexp.MustCompile literals (harness/regexgen.go) and GenNow.TableOk.now_table_ok (retab_ok now = true) was proved by vm_compute", len(modelRegexes)), 12)
+		}
 		return false
 	}
 	res.Mismatches++
